@@ -723,7 +723,7 @@ func c24(r *engine.Run) {
 	}
 	sp := engine.Space[*c24live, c24op]{
 		New: func() *c24live {
-			l := &c24live{c: daemon.NewConnections(), m: model.NewConnModel(), nextID: 1, }
+			l := &c24live{c: daemon.NewConnections(), m: model.NewConnModel(), nextID: 1}
 			return l
 		},
 		Ops:   func(l *c24live) []c24op { return x.ops(l) },
